@@ -65,6 +65,14 @@ CHECKS.update({
         design="3/C18"),
 })
 
+CHECKS.update({
+    "C12": dict(
+        technique="property-based testing: differential oracle between runs of the same code under different PYTHONHASHSEED values (subprocess per seed) and under permutations of components.schemas / paths",
+        text="Batches of generated reference-rich documents are generated in one subprocess per hash seed (6 seeds, one repeated, first document regenerated at the end of each process) and tree digests compared; clean documents are regenerated under all (<=4 entries) or sampled permutations of their schema and path maps and compared byte for byte, with and without the ruff post-hooks.",
+        note="hash-seed independence is sampled, not exhaustive; documents with diagnostics are outside the permutation clause by the statement's own wording",
+        design="3/C12"),
+})
+
 NOT_YET = {}
 
 def main():
